@@ -407,6 +407,15 @@ def from_term(t, env=None):
             return atom(('fn', name, tuple(canon(from_term(x, env)) if x[0] not in ('unk',) else canon(sym('?unk')) for x in args)))
         if name == 'sqrt' and len(args) == 1:
             return sqrt_of(from_term(args[0], env))
+        if name in ('log', 'exp') and len(args) == 1:
+            # log(exp(A)) = A for every real A; exp(log(A)) = A for A > 0 (the code takes the logarithm, so it assumes that too)
+            inner = reduce_trig(from_term(args[0], env))
+            other = 'exp' if name == 'log' else 'log'
+            if len(inner) == 1:
+                (m_, c_), = inner.items()
+                if c_ == 1 and len(m_) == 1 and m_[0][1] == 1 and m_[0][0][0] == 'fn' and m_[0][0][1] == other and len(m_[0][0][2]) == 1:
+                    return uncanon(m_[0][0][2][0])
+            return atom(('fn', name, (canon(inner),)))
         return atom(('fn', name, tuple(canon(reduce_trig(from_term(a, env))) for a in args)))
     if k == 'apply':
         return atom(('app', canon(from_term(t[1], env)), tuple(canon(reduce_trig(from_term(a, env))) for a in t[2])))
